@@ -69,12 +69,21 @@ SECRETS = [32, 1, 200, 0]      # 0: the empty secret (a legal HMAC key, and a fa
 FUDGES = [300, 0, 65535]
 TIMEKEYS = ["now", "zero", "big"]
 ERRS = [0, 18, 3862]      # none, BADTIME (with 6 octets of other data), a 12-bit extended code
-ORIGS = ["same", "diff"]
+ORIGS = ["same", "diff", "zero"]     # original id: the message id, another id, 0 (a falsy id)
 ROLES = ["request", "response"]
 FORMS = ["dict", "key", "callable", "dict-bytes", "tsigkeyring"]
 
 MSG_ID = 0x1234
 OTHER_ID = 0x4321
+
+
+def orig_arg(case):
+    """original_id argument: None (= take the message id), another id, or 0."""
+    return {"diff": OTHER_ID, "zero": 0}.get(case.get("orig"))
+
+
+def orig_value(case):
+    return {"diff": OTHER_ID, "zero": 0}.get(case.get("orig"), MSG_ID)
 REQUEST_MAC_SEED = b"request-mac-seed"
 
 
@@ -172,7 +181,7 @@ def use_tsig(m, case, key, form):
     err = case.get("err", 0)
     kw = dict(fudge=case["fudge"], tsig_error=err,
               other_data=other_data_for(err, TIMES[case["time"]]),
-              original_id=(OTHER_ID if case.get("orig") == "diff" else None))
+              original_id=orig_arg(case))
     if form == "key":
         m.use_tsig(key, **kw)
     elif form == "dict-bytes":
@@ -273,7 +282,7 @@ def check_fields(api, t, case, tsigned, probs, mac_size=True):
         "algorithm": case["alg"],
         "time-signed": tsigned,
         "fudge": case["fudge"],
-        "original-id": OTHER_ID if case.get("orig") == "diff" else MSG_ID,
+        "original-id": orig_value(case),
         "error": err,
         "other": other_data_for(err, TIMES[case["time"]]),
         "class": ref.CLASS_ANY,
@@ -324,7 +333,7 @@ def run_sign(case, col=None):
         r.counts = list(struct.unpack("!HHHH", uw[4:12]))
         r.section = dns.renderer.ADDITIONAL
         CLOCK.now = t0
-        r.add_tsig(key.name, key, case["fudge"], OTHER_ID if case.get("orig") == "diff" else MSG_ID,
+        r.add_tsig(key.name, key, case["fudge"], orig_value(case),
                    err, other_data_for(err, t0), rm, key.algorithm)
         rw = r.get_wire()
         rmac, rt = ref.expected_mac(rw, case_secret(case), rm)
@@ -520,7 +529,7 @@ def run_tamper(case, col=None):
                          for i, c in enumerate(lab)) for lab in klabels]
         mixed_a = [lab.upper() if i % 2 == 0 else lab for i, lab in enumerate(alabels)]
         w3, _ = ref.sign(uw, mixed_k, mixed_a, secret, t0, case["fudge"],
-                         original_id=(OTHER_ID if case.get("orig") == "diff" else None), request_mac=rm)
+                         original_id=orig_arg(case), request_mac=rm)
         for form in FORMS:
             v, label, obj = validate(w3, keyring_of(form, key), rm, t0)
             seen("reference-signed", label)
@@ -721,7 +730,7 @@ def ref_sequence(case, pattern):
         uw = build_envelope(i, n).to_wire()
         if pattern[i]:
             w, _ = ref.sign(uw, kl, al, secret, envelope_time(case, i), case["fudge"],
-                            original_id=(OTHER_ID if case.get("orig") == "diff" else None),
+                            original_id=orig_arg(case),
                             request_mac=rm, chain=chain)
         else:
             w = uw
@@ -783,7 +792,7 @@ def run_multi(case, col=None):
                         r.counts = list(struct.unpack("!HHHH", uw[4:12]))
                         r.section = dns.renderer.ADDITIONAL
                         sctx = r.add_multi_tsig(sctx, key.name, key, case["fudge"],
-                                                OTHER_ID if case.get("orig") == "diff" else MSG_ID,
+                                                orig_value(case),
                                                 0, b"", rm, key.algorithm)
                         w = r.get_wire()
                     wires.append(w)
